@@ -291,26 +291,67 @@ fn lease() -> Arc<TtlLease> {
     Arc::new(TtlLease::new(d_engine_core::config::LeaseConfig { cleanup_interval_ms: 1000, max_cleanup_duration_ms: 1 }))
 }
 
-fn exec(case: &str) -> String {
-    let Some(ops) = parse(case) else { return "bad-case".into() };
+/// The engines are opened once per process (opening/closing a RocksDB instance costs ~0.2 s here) and
+/// brought back to the empty state with the real `reset()` before every case; after a panic, and every
+/// 500 cases, they are dropped and re-opened in a fresh temp dir.
+struct Pool {
+    _dir: tempfile::TempDir,
+    file: Arc<FileStateMachine>,
+    rocks: Arc<RocksDBStateMachine>,
+    used: usize,
+}
+
+fn new_pool() -> Pool {
     std::fs::create_dir_all("/verif/target/tmp").ok();
     let dir = tempfile::tempdir_in("/verif/target/tmp").unwrap();
+    let mut f = rt().block_on(FileStateMachine::new(dir.path().join("file"))).unwrap();
+    f.set_lease(lease());
+    let mut r = RocksDBStateMachine::new(dir.path().join("rocks")).unwrap();
+    r.set_lease(lease());
+    Pool { _dir: dir, file: Arc::new(f), rocks: Arc::new(r), used: 0 }
+}
+
+fn pool() -> &'static Mutex<Option<Pool>> {
+    static P: OnceLock<Mutex<Option<Pool>>> = OnceLock::new();
+    P.get_or_init(|| Mutex::new(None))
+}
+
+fn exec(case: &str) -> String {
+    let Some(ops) = parse(case) else { return "bad-case".into() };
     let uni = universe(&ops);
     install_hooks();
+    let mut guard = pool().lock().unwrap_or_else(|e| e.into_inner());
+    if guard.as_ref().map(|p| p.used >= 500).unwrap_or(true) {
+        *guard = None; // drop the old engines first (RocksDB lock, files)
+        *guard = Some(new_pool());
+    }
+    let p = guard.as_mut().unwrap();
+    p.used += 1;
+    let (fsm, rsm) = (p.file.clone(), p.rocks.clone());
+    let mut poisoned = false;
     let f = std::panic::catch_unwind(AssertUnwindSafe(|| {
-        let mut sm = rt().block_on(FileStateMachine::new(dir.path().join("file"))).unwrap();
-        sm.set_lease(lease());
-        run_engine(Arc::new(sm), Kind::File, &ops, &uni)
+        rt().block_on(fsm.reset()).unwrap();
+        run_engine(fsm.clone(), Kind::File, &ops, &uni)
     }))
-    .unwrap_or_else(|_| "panic".into());
+    .unwrap_or_else(|_| {
+        poisoned = true;
+        "panic".into()
+    });
     *gap_slot().lock().unwrap() = None;
     let r = std::panic::catch_unwind(AssertUnwindSafe(|| {
-        let mut sm = RocksDBStateMachine::new(dir.path().join("rocks")).unwrap();
-        sm.set_lease(lease());
-        run_engine(Arc::new(sm), Kind::Rocks, &ops, &uni)
+        rt().block_on(StateMachine::reset(rsm.as_ref())).unwrap();
+        run_engine(rsm.clone(), Kind::Rocks, &ops, &uni)
     }))
-    .unwrap_or_else(|_| "panic".into());
+    .unwrap_or_else(|_| {
+        poisoned = true;
+        "panic".into()
+    });
     *gap_slot().lock().unwrap() = None;
+    if poisoned {
+        drop(fsm);
+        drop(rsm);
+        *guard = None;
+    }
     format!("file{{{}}} rocks{{{}}}", f, r)
 }
 
